@@ -143,6 +143,21 @@ static void st_tcp_refused(void)
     if (cli && la) { p_socket_set_timeout(cli, 1000); p_socket_connect(cli, la, &e); }
     p_error_free(e); p_socket_free(cli); p_socket_address_free(lo); p_socket_address_free(la);
 }
+static void st_udp(void)
+{   /* datagrams to oneself (both families), received once with and once without the optional sender-address out-parameter; a send_to on the way */
+    int f;
+    for (f = 0; f < 2; f++) {
+        PSocketAddress *lo = p_socket_address_new(f ? "::1" : "127.0.0.1", 0), *ua = NULL, *from = NULL; char b[8];
+        PSocket *u = p_socket_new(f ? P_SOCKET_FAMILY_INET6 : P_SOCKET_FAMILY_INET, P_SOCKET_TYPE_DATAGRAM, P_SOCKET_PROTOCOL_UDP, NULL);
+        if (u && lo && p_socket_bind(u, lo, TRUE, NULL) && (ua = p_socket_get_local_address(u, NULL)) != NULL) {
+            p_socket_set_timeout(u, 500);
+            if (p_socket_send_to(u, ua, "one", 3, NULL) == 3) p_socket_receive_from(u, NULL, b, sizeof b, NULL);
+            if (p_socket_send_to(u, ua, "two", 3, NULL) == 3) p_socket_receive_from(u, &from, b, sizeof b, NULL);
+            if (p_socket_send_to(u, ua, "", 0, NULL) == 0) p_socket_receive(u, b, sizeof b, NULL);
+        }
+        p_socket_address_free(from); p_socket_free(u); p_socket_address_free(lo); p_socket_address_free(ua);
+    }
+}
 static void st_timeouts(void)
 {   /* accept and datagram receive that time out, bind to a port in use */
     PSocketAddress *lo = p_socket_address_new("127.0.0.1", 0), *la = NULL; PSocket *srv = p_socket_new(P_SOCKET_FAMILY_INET, P_SOCKET_TYPE_STREAM, P_SOCKET_PROTOCOL_TCP, NULL), *u = p_socket_new(P_SOCKET_FAMILY_INET, P_SOCKET_TYPE_DATAGRAM, P_SOCKET_PROTOCOL_UDP, NULL), *dup, *acc; PError *e = NULL; char b[4];
@@ -176,7 +191,7 @@ static void st_tls(void) { PUThreadKey *k = p_uthread_local_new(NULL); p_uthread
 
 static const struct { const char *name; void (*fn)(void); } ST[] = {
     {"trees", st_tree}, {"hashtable-list", st_hash}, {"inifile", st_ini}, {"cryptohash", st_crypto}, {"errors", st_error}, {"dir", st_dir}, {"dir-missing", st_dir_missing},
-    {"tcp-exchange", st_tcp_ok}, {"tcp-refused", st_tcp_refused}, {"socket-timeouts-bind-in-use", st_timeouts}, {"semaphore-two-handles", st_sem}, {"shm-equal-sizes", st_shm_equal},
+    {"tcp-exchange", st_tcp_ok}, {"tcp-refused", st_tcp_refused}, {"socket-timeouts-bind-in-use", st_timeouts}, {"udp-exchange", st_udp}, {"semaphore-two-handles", st_sem}, {"shm-equal-sizes", st_shm_equal},
     {"shm-different-sizes", st_shm_diff}, {"shmbuffer-handles", st_shmbuf}, {"shm-zero-size-fails", st_shm_bad}, {"thread-join", st_thread}, {"thread-detached", st_detached}, {"foreign-thread", st_foreign},
     {"locks", st_locks}, {"libraryloader", st_lib}, {"tls-key", st_tls},
 };
